@@ -345,8 +345,14 @@ func checkC06(c *Ctx) {
 			}
 			chK := fcc.K.Key(s.Chan)
 			facts := fcc.At(in)
-			entry := "p0->" + kCIO + "awaitingCmds[p1]"
-			if chK != entry+"#0" || !trueOf(facts, is(entry+"#1")) {
+			// the waiter's key, whatever expression it is (the id parameter, or the id of the command parameter)
+			pre := "p0->" + kCIO + "awaitingCmds["
+			if !strings.HasPrefix(chK, pre) || !strings.HasSuffix(chK, "]#0") {
+				return
+			}
+			waiterKey := chK[len(pre) : len(chK)-len("]#0")]
+			entry := pre + waiterKey + "]"
+			if !trueOf(facts, is(entry+"#1")) {
 				return
 			}
 			w := reachAvoid(in, isReturn, func(x ssa.Instruction) bool {
@@ -355,7 +361,7 @@ func checkC06(c *Ctx) {
 					return false
 				}
 				b, ok := call.Call.Value.(*ssa.Builtin)
-				return ok && b.Name() == "delete" && fcc.K.Key(call.Call.Args[0]) == "p0->"+kCIO+"awaitingCmds" && fcc.K.Key(call.Call.Args[1]) == "p1"
+				return ok && b.Name() == "delete" && fcc.K.Key(call.Call.Args[0]) == "p0->"+kCIO+"awaitingCmds" && fcc.K.Key(call.Call.Args[1]) == waiterKey
 			})
 			okDel = w == nil
 		})
